@@ -16,6 +16,28 @@ func init() {
 					{Fn: "Harness_C19_optimize_n3", Tiers: "both", Reach: []string{"end"}, Bounds: "3 fields, same ranges"},
 					{Fn: "Harness_C19_optimize_n4", Tiers: "thorough", Reach: []string{"end"}, Bounds: "4 fields, same ranges"},
 				},
+			}, {
+				PkgPath: "honnef.co/go/tools/go/gcsizes",
+				PkgDir:  "go/gcsizes",
+				PkgName: "gcsizes",
+				Files:   []string{"gcsizes.go"},
+				Entries: []Entry{
+					{Fn: "Harness_C19_gcsizes_flat3", Tiers: "both", Reach: []string{"end"}, Bounds: "structs of 0-3 fields over 12 basic kinds, pointer, slice, interface (no nesting)"},
+					{Fn: "Harness_C19_gcsizes_nested1", Tiers: "both", Reach: []string{"end"}, Bounds: "structs of 0-1 field; the field may be an array (symbolic length < 2^16 over 5 leaf kinds, or length 0-2), a nested or named struct of 0-2 fields"},
+					{Fn: "Harness_C19_gcsizes_nested2", Tiers: "thorough", Reach: []string{"end"}, Bounds: "structs of 0-2 fields; fields may be arrays (symbolic length < 2^16 over leaf types, or length 0-2 over anything), nested structs of 0-2 fields, named structs"},
+					{Fn: "Harness_C19_gcsizes_nested3", Tiers: "thorough", Reach: []string{"end"}, Bounds: "as nested2 with 0-3 fields"},
+					{Fn: "Harness_C19_gcsizes_deep2", Tiers: "thorough", Reach: []string{"end"}, Bounds: "nesting depth 2, 0-2 fields"},
+				},
+			}, {
+				PkgPath: "honnef.co/go/tools/cmd/structlayout",
+				PkgDir:  "cmd/structlayout",
+				PkgName: "main",
+				Files:   []string{"layout.go"},
+				Entries: []Entry{
+					{Fn: "Harness_C19_layout_flat3", Tiers: "both", Reach: []string{"end"}, Bounds: "structs of 1-3 fields over 6 basic kinds and arrays of length 0-2 (incl. trailing zero-size fields)"},
+					{Fn: "Harness_C19_layout_nested2q", Tiers: "both", Reach: []string{"end"}, Bounds: "int64 or nested struct (0-2 fields), then an arbitrary field (basic, array, nested struct, struct{}), optionally a third basic field"},
+					{Fn: "Harness_C19_layout_nested2", Tiers: "thorough", Reach: []string{"end"}, Bounds: "structs of 1-2 fields; fields may be nested structs of 0-2 fields or struct{}"},
+				},
 			}},
 			Assumptions: []string{
 				"input layout is valid: every field size is a multiple of its alignment; alignments are powers of two <= 8",
